@@ -295,7 +295,7 @@ class DIP:
             if not target.branching.false_case() or node.keyword=='case':
                 node.inject_value(target)
                 parsed = node.parse(target)
-                if parsed: 
+                if isinstance(parsed, list):
                     # Add parsed nodes to the queue and continue
                     queue.nodes.prepend(parsed)
                     continue
